@@ -661,6 +661,11 @@ func (x *session) auth(arg string) bool {
 
 func (s *Server) serve(c net.Conn, id int) {
 	x := &session{s: s, c: c, id: id}
+	if s.cfg.Implicit && s.cfg.HSStall { // the connection is accepted, the ClientHello is never answered
+		defer func() { _ = c.Close() }()
+		x.stall()
+		return
+	}
 	if s.cfg.Implicit {
 		tap := &tapConn{Conn: c}
 		tc := tls.Server(tap, s.cfg.TLS)
